@@ -541,7 +541,7 @@ fn l32_file_stage_on(ctx: &Ctx, build_dir: &Path, target: &str, div: u64) -> (u6
     }
     samples.truncate(6);
     let report = json!({"engine": format!("Miri, --target {target} (32-bit limbs), tree borrows; inputs and expected bits generated natively"),
-                        "inputs": count, "inputs_parsed": cases, "concurrent_interpreters": parts, "configurations": ["default", "compact", "alloc", "no_std+compact"],
+                        "inputs": count, "inputs_parsed": cases, "concurrent_interpreters": parts, "configurations": ["default", "compact", "alloc", "compact+alloc", "no_std+compact"],
                         "wall_s": start.elapsed().as_secs_f64(), "ok": all_ok, "samples": samples});
     if all_ok {
         return (0, Some(report), None);
